@@ -11,7 +11,7 @@ OUTSIDE = ('pool sizes above 3; more than 3 threads / 2 cycles per thread / the 
            '(its semaphore, per-producer sub-queues, allocation failure in enqueue); weak-memory reorderings; init functors that throw')
 
 KIT = {'src': 'rp_conc.cpp', 'engine': 'cbmc-seq', 'shims': ['moodycamel'], 'models': ['aligned_alloc'],
-       'spin_loops': True, 'unwind': 4, 'timeout': 1500}
+       'spin_loops': True, 'unwind': 4, 'timeout': 1700}
 
 
 def conc(name, size, kinds, steps, tiers, bounds, thorough=None, symsize=0, **kw):
@@ -35,18 +35,18 @@ INSTANCES = [
          'handle and self-move-assignment; ' + R % 3 + ' (thorough: 5)', thorough={'steps': 5}),
     conc('conc_s2_assign', 2, ((2, -1), (0, 0)), 3, ['quick', 'thorough'],
          'pool size 2; thread 1: holds two resources and move-assigns one handle onto the other live handle; thread 2: 2 plain cycles; '
-         + R % 3 + ' (thorough: 5)', thorough={'steps': 5}),
-    conc('conc_s2_3t', 2, ((0, -1), (1, -1), (4, -1)), 3, ['quick', 'thorough'],
+         + R % 3 + ' (thorough: 4)', thorough={'steps': 4}),
+    conc('conc_s2_3t', 2, ((0, -1), (1, -1), (4, -1)), 4, ['thorough'],
          'pool size 2; 3 threads x 1 cycle: plain | move-constructed handle | fresh acquire() assigned onto a live handle; '
-         + R % 3 + ' (thorough: 5)', thorough={'steps': 5}),
-    conc('conc_s3_3t', 3, ((2, 0), (4, -1), (9, 9)), 5, ['thorough'],
-         'pool size 3; 3 threads: move-assignment onto a live handle + plain | acquire() assigned onto a live handle | '
-         '2 cycles of symbolic kind (plain, move-constructed, move-assigned onto moved-from + self-assignment); ' + R % 5, symsize=0),
+         + R % 4),
+    conc('conc_s3_3t', 3, ((2, -1), (4, -1), (9, 9)), 4, ['thorough'],
+         'pool size 3; 3 threads: move-assignment onto a live handle | acquire() assigned onto a live handle | '
+         '2 cycles of symbolic kind (plain, move-constructed, move-assigned onto moved-from + self-assignment); ' + R % 4, symsize=0),
     {'name': 'seq_history', 'src': 'rp_seq.cpp', 'engine': 'cbmc', 'shims': ['moodycamel'], 'models': ['aligned_alloc'],
      'defs': {'VF_SIZE': 2, 'VF_SYMSIZE': 0, 'VF_OPS': 3, 'VF_SLOTS': 3, 'VF_MQ_CAP': 4}, 'unwind': 5, 'timeout': 1500,
      'tiers': ['quick', 'thorough'],
-     'bounds': 'pool size 2 (thorough: symbolic 1..3); 3 handle slots; every history of 3 (thorough: 5) operations out of: acquire into a '
+     'bounds': 'pool size 2 (thorough: symbolic 1..3); 3 handle slots; every history of 3 (thorough: 4) operations out of: acquire into a '
                'fresh handle, acquire() assigned onto an existing handle, destroy, move-construct, move-assign (incl. self, live onto live, '
                'onto/from moved-from), get(); then all handles destroyed and ~ResourcePool; queue model capacity size+2',
-     'thorough': {'defs': {'VF_SIZE': 3, 'VF_SYMSIZE': 1, 'VF_OPS': 5, 'VF_SLOTS': 3, 'VF_MQ_CAP': 5}, 'unwind': 7}},
+     'thorough': {'defs': {'VF_SIZE': 3, 'VF_SYMSIZE': 1, 'VF_OPS': 4, 'VF_SLOTS': 3, 'VF_MQ_CAP': 5}, 'unwind': 6}},
 ]
